@@ -230,11 +230,12 @@ open GoNfsd.Model.BlockMap in
 theorem write_anything_then_delete_frees_everything (allocs bns : List Nat) (hd : DistinctNZ allocs)
     (hb : ∀ bn ∈ bns, bn < NDIRECT + NBLKBLK + NBLKBLK * NBLKBLK) :
     let f := bmapAll { st := emptyStore, allocs := allocs } (List.replicate (NDIRECT + 2) 0) bns
-    let r := shrinkTo f.1 f.2 0 MAXBLKS
-    (∀ q, q.valid → ptr r.1.st r.2 q = 0) ∧
-    (∀ b, b ≠ 0 → (∃ q, q.valid ∧ ptr f.1.st f.2 q = b) → b ∈ r.1.freed) ∧
-    (∀ b, b ∈ r.1.freed → ∃ q, q.valid ∧ ptr f.1.st f.2 q = b) := by
-  intro f r
+    (∀ q, q.valid → ptr (shrinkTo f.1 f.2 0 MAXBLKS).1.st (shrinkTo f.1 f.2 0 MAXBLKS).2 q = 0) ∧
+    (∀ b, b ≠ 0 → (∃ q, q.valid ∧ ptr f.1.st f.2 q = b) → b ∈ (shrinkTo f.1 f.2 0 MAXBLKS).1.freed) ∧
+    (∀ b, b ∈ (shrinkTo f.1 f.2 0 MAXBLKS).1.freed → ∃ q, q.valid ∧ ptr f.1.st f.2 q = b) := by
+  -- (no `let` for the result of the run: the kernel would evaluate `shrinkTo … MAXBLKS`, a
+  -- quarter of a million steps, to put the let-bound value into weak head normal form)
+  intro f
   have hW := bmapAll_wf { st := emptyStore, allocs := allocs } (List.replicate (NDIRECT + 2) 0) bns (WFB_empty allocs hd) hb
   have hemp : EmptyFrom f.1.st f.2 MAXBLKS := by
     intro q hq hle
@@ -347,7 +348,7 @@ example :
     let f := inoRun ({ st := emptyStore, allocs := [100, 101, 102, 103, 104, 105, 106, 107, 108, 0, 109, 110] }, emptyIno) ops
     (f.2.size, f.2.shrink, f.2.blks, f.1.allocs, f.1.freed) =
       (50000, 13, [100, 101, 0, 0, 0, 0, 0, 0, 107, 0], [109, 110], [102, 103, 104, 105, 106]) := by
-  decide
+  decide +kernel
 
 open GoNfsd.Model.BlockMap in
 /-- A REQUEST THAT CANNOT FINISH FREEING SAYS SO, AND LEAVES THE BOOKS RIGHT.  `Resize` inside one
